@@ -1435,6 +1435,8 @@ class XMLSchemaBase(XsdValidator, ElementPathMixin[Union[SchemaType, XsdElement]
             selector = context.source.iterfind(path, context.namespaces)
         else:
             selector = context.source.iter_depth(mode=2)
+            # The chunks are not the root of the decoding process
+            context.level = context.source.lazy_depth
 
         for elem in selector:
             xsd_element = self.get_element(elem.tag, schema_path, context.namespaces)
@@ -1444,6 +1446,10 @@ class XMLSchemaBase(XsdValidator, ElementPathMixin[Union[SchemaType, XsdElement]
                 else:
                     yield context.missing_element_error(validation, self, elem, path, schema_path)
                     continue
+
+            if context.level:
+                # Apply the namespace declarations of the chunk, like a parent group does
+                context.converter.set_xmlns_context(elem, context.level)
 
             result = xsd_element.raw_decode(elem, validation, context)
             if context.errors:
